@@ -8,7 +8,7 @@ import Aergo.Model.Determ
     vadd <hexid> <amount>             vpr.add (prepare)                        ⇒ ok
     vsub <hexid> <amount>             vpr.sub (prepare)                        ⇒ ok
     vapply                            vpr.apply                                ⇒ total, powers, buckets, pending
-    gather <tok> ...                  per candidate ok | err | tmo | vmtmo | - ⇒ picked indexes, validator verdict
+    gather <tok> ...                  per candidate ok | err | ok! | err! | tmo | vmtmo | - ⇒ picked indexes, validator verdict
 -/
 open Aergo Aergo.DriverLib Aergo.Determ
 
@@ -51,13 +51,28 @@ def showVpr (s : Sess) : String :=
     if b.isEmpty then none else some s!"{i}={showKL b}"
   s!"total={s.v.total} powers={showKL s.v.powers} buckets=\{{" ".intercalate bs}} pending={s.changes.length}"
 
-def parseTok : String → Option (Option (Pre × Bool))
-  | "ok" => some (some (.go, true))
-  | "err" => some (some (.go, false))
-  | "tmo" => some (some (.tmo, false))
-  | "vmtmo" => some (some (.vmtmo, false))
-  | "-" => some none
+/-- A token: what the block factory's checks said and whether the tx executed successfully; `!` = the
+block-generation context expired (deadline) or was cancelled (shutdown) *while* this candidate executed. -/
+def parseTok : String → Option (Option (Pre × Bool) × Bool)
+  | "ok" => some (some (.go, true), false)
+  | "err" => some (some (.go, false), false)
+  | "ok!" => some (some (.go, true), true)
+  | "err!" => some (some (.go, false), true)
+  | "tmo" => some (some (.tmo, false), false)
+  | "vmtmo" => some (some (.vmtmo, false), false)
+  | "-" => some (none, false)
   | _ => none
+
+/-- `checkBGTimeout` runs in front of every candidate: once the context is done no further candidate is
+executed (deadline: the loop stops; cancellation: every remaining candidate is refused with `ErrQuit`). A
+candidate the harness never saw executing (`-`) is treated the same way. -/
+def mkCands : Bool → Nat → List (Option (Pre × Bool) × Bool) → List (Pre × (Nat × Bool))
+  | _, _, [] => []
+  | expired, i, (t, ex) :: rest =>
+    let c : Pre × (Nat × Bool) := match expired, t with
+      | false, some (p, ok) => (p, (i, ok))
+      | _, _ => (.tmo, (i, false))
+    c :: mkCands (expired || ex) (i + 1) rest
 
 def c02Step (s : Sess) (line : String) : Sess × String :=
   match words line with
@@ -89,10 +104,7 @@ def c02Step (s : Sess) (line : String) : Sess × String :=
     match toks.mapM parseTok with
     | some ts =>
       -- candidates after the stop may be unknown ("-"): they are never looked at
-      let cands : List (Pre × (Nat × Bool)) := (ts.zipIdx).map fun (t, i) =>
-        match t with
-        | some (p, ok) => (p, (i, ok))
-        | none => (.tmo, (i, false))
+      let cands := mkCands false 0 ts
       let exec : Unit → (Nat × Bool) → Bool × Unit × Nat := fun _ t => (t.2, (), t.1)
       let g := gather exec () cands
       let verdict := match validate exec () g.1 with
